@@ -46,10 +46,10 @@ func (r *Run) runMain(entry *ssa.Function) {
 // spawn creates a new engine thread.
 func (r *Run) spawn(fv Value, args []Value) {
 	t := &Thread{id: len(r.threads), wake: make(chan struct{}), fn: fv, args: args}
-	// happens-before: creation
-	r.tick()
+	// happens-before: creation (the child sees what the parent did before the go statement, not after)
 	t.vc = make([]int, len(r.threads)+1)
 	copy(t.vc, r.cur.vc)
+	r.tick()
 	for _, o := range r.threads {
 		for len(o.vc) < len(r.threads)+1 {
 			o.vc = append(o.vc, 0)
@@ -375,9 +375,11 @@ func (r *Run) hbRelease(key interface{}) {
 	if r.nthreads <= 1 {
 		return
 	}
-	r.tick()
+	// publish the clock, then advance: accesses made after the release must not look ordered
+	// before a later acquirer
 	c := r.syncClock(key)
 	joinVC(c, r.cur.vc)
+	r.tick()
 }
 
 type slotKey struct {
